@@ -68,6 +68,23 @@ Theorem C11_src_tail : forall v s,
 Proof. intros v s. cbv zeta. rewrite src_cleanup_eq. exact (cleanup_facts v s). Qed.
 Print Assumptions C11_src_tail.
 
+(* one iteration of the generation loop over the source's get_valid_opcodes (the protocol's row, in order, filtered by
+   can_emit) and weighted_choice (the opcode at a uniformly drawn index; its fallback on an empty list is dead: the loop
+   leaves first): exactly one opcode is chosen per iteration, from the candidates - what C11's count and C03's guard rest on *)
+Theorem C11_src_loop : forall e ho c l, l_stopped l = false ->
+  loop_body e ho c (Ok l) =
+  (let valid := src_get_valid (can_emit c (l_sim l)) (row (c_version c)) in
+   match valid with
+   | [] => Ok {| l_sim := l_sim l; l_src := l_src l; l_out := l_out l; l_trace := l_trace l; l_stopped := true |}
+   | _ => do (o, s1) <- src_weighted_choice valid (l_src l);
+          do (r, s2) <- emit_and_process e ho c (l_sim l) o s1;
+          let (em, sim') := r in
+          Ok {| l_sim := sim'; l_src := s2; l_out := e_final em :: l_out l;
+                l_trace := (valid, o, em) :: l_trace l; l_stopped := false |}
+   end).
+Proof. exact loop_body_src. Qed.
+Print Assumptions C11_src_loop.
+
 (* `>=` on Version in the source is derive(PartialOrd) = declaration order = the order of the protocol numbers *)
 Theorem C11_src_version_order : map vnum src_version_order = [0; 1; 2; 3; 4; 5].
 Proof. exact src_version_order_ok. Qed.
